@@ -21,6 +21,7 @@ from smpl_extract.generalized.sample import combine_stereo
 from smpl_extract.generalized.sample import Sample
 from smpl_extract.generalized.wav import export_wav
 from smpl_extract.info import InfoTable
+from smpl_extract import _verif_trace as _vt
 
 
 class ErrorNoChildWithName(Exception): ...
@@ -67,9 +68,13 @@ class ExportManager:
 
     def add_sample(self, sample: Sample):
         self.samples.append(sample)
+        if _vt.ON:
+            _vt.emit("AddSample", streams=[_vt.ident(d.stream) for d in sample.data_streams], name=sample.export_name)
 
 
     def set_level(self, level: Tuple[str, ...]):
+        if _vt.ON:
+            _vt.emit("SetLevel", level=list(level), pending=len(self.samples))
         self.level = level
         self.samples.clear()
 
@@ -77,6 +82,8 @@ class ExportManager:
     def finish_level(self):
         self.export_samples()
         self.level = ()
+        if _vt.ON:
+            _vt.emit("FinishLevel", pending=len(self.samples))
 
 
     def make_output_path(self, sample: Sample) -> str:
@@ -97,6 +104,8 @@ class ExportManager:
             if not os.path.exists(dir_name):
                 os.makedirs(dir_name)
             export_wav(sample, total_path)
+            if _vt.ON:
+                _vt.emit("Write", path=inner_path, nch=sample.num_channels, streams=[_vt.ident(d.stream) for d in sample.data_streams])
             print(f"Exported {inner_path}.wav")
 
         self.samples.clear()
